@@ -2,8 +2,8 @@
    time values are the bit patterns of non-negative finite binary64 numbers (their order is the order of the
    patterns), the clock is a table supplied with the scenario, processes are Script programs, and
    model-checking-mode ctx.rand() is never called (draw-free programs). *)
-From ASV Require Import Base.Util Base.Msg Base.Log Model.Store Model.McSys Model.Search Model.McRun Model.Script
-     Model.DebugFmt.
+From ASV Require Import Base.Util Base.Msg Base.Log Model.Store Spec.StoreSpec Model.McSys Spec.RefSys Model.Search
+     Model.McRun Model.Script Model.DebugFmt.
 
 Definition TT := N.
 Definition i_tgt0 (b : N) : bool := negb (N.eqb b 0).
@@ -11,21 +11,32 @@ Definition i_teq0 (b : N) : bool := N.eqb b 0.
 Definition clock_of (tab : list ((N * N) * N)) (depth skew : N) : N :=
   match sget tkey_cmp (depth, skew) tab with Some b => b | None => 0 end.
 
-Definition i_sys := @mcsys N (pstate N).
-Definition i_state := @mcstate N (pstate N).
+(* the two store instances: the model of the code (c_) and the reference semantics (a_) *)
+Definition c_ops : @store_ops N (store N) := concrete_ops N.leb (@store_eqb N).
+Definition a_ops : @store_ops N (astore N) := abstract_ops N.leb (@sevent_eqb N).
+Definition i_sys := @mcsys N (store N) (pstate N).
+Definition i_state := @mcstate N (store N) (pstate N).
+Definition r_sys := @mcsys N (astore N) (pstate N).
+Definition r_state := @mcstate N (astore N) (pstate N).
 
 Section Inst.
   Variable tab : list ((N * N) * N).
   Variable progs : list (N * prog N).
   Let h := progs_handler (T := N) progs.
-  Definition i_cb_run := cb_run N.leb i_tgt0 i_teq0 0 (clock_of tab) h unit (fun _ _ => 0) (fun _ => tt).
-  Definition i_run := run N.leb N.eqb i_tgt0 i_teq0 0 (clock_of tab) (pstate_eqb N.eqb) h unit (fun _ _ => 0) (fun _ => tt).
+  Definition i_cb_run := cb_run c_ops i_tgt0 i_teq0 0 (clock_of tab) h unit (fun _ _ => 0) (fun _ => tt).
+  Definition i_run := run c_ops N.eqb i_tgt0 i_teq0 0 (clock_of tab) (pstate_eqb N.eqb) h unit (fun _ _ => 0) (fun _ => tt).
   Definition i_run_from_states :=
-    run_from_states N.leb N.eqb i_tgt0 i_teq0 0 (clock_of tab) (pstate_eqb N.eqb) h unit (fun _ _ => 0) (fun _ => tt)
+    run_from_states c_ops N.eqb i_tgt0 i_teq0 0 (clock_of tab) (pstate_eqb N.eqb) h unit (fun _ _ => 0) (fun _ => tt)
                     (tr_cmp (T := N)).
-  Definition i_state_eqb := mcstate_eqb (T := N) N.eqb (pstate_eqb N.eqb).
-  Definition i_take_choice := take_choice N.leb i_tgt0 i_teq0 0 (clock_of tab) h unit (fun _ _ => 0) (fun _ => tt).
-  Definition i_all_choices := all_choices (T := N) (PS := pstate N).
-  Definition i_get_state := get_state (T := N) (PS := pstate N).
-  Definition i_set_state := set_state (T := N) (PS := pstate N).
+  Definition i_state_eqb := mcstate_eqb c_ops N.eqb (pstate_eqb N.eqb).
+  Definition i_take_choice := take_choice c_ops i_tgt0 i_teq0 0 (clock_of tab) h unit (fun _ _ => 0) (fun _ => tt).
+  Definition i_all_choices := all_choices c_ops (PS := pstate N).
+  Definition i_get_state := get_state (T := N) (SE := store N) (PS := pstate N).
+  Definition i_set_state := set_state (T := N) (SE := store N) (PS := pstate N).
+  (* the same functions over the reference semantics *)
+  Definition r_cb_run := cb_run a_ops i_tgt0 i_teq0 0 (clock_of tab) h unit (fun _ _ => 0) (fun _ => tt).
+  Definition r_run := run a_ops N.eqb i_tgt0 i_teq0 0 (clock_of tab) (pstate_eqb N.eqb) h unit (fun _ _ => 0) (fun _ => tt).
+  Definition r_take_choice := take_choice a_ops i_tgt0 i_teq0 0 (clock_of tab) h unit (fun _ _ => 0) (fun _ => tt).
+  Definition r_all_choices := all_choices a_ops (PS := pstate N).
+  Definition r_get_state := get_state (T := N) (SE := astore N) (PS := pstate N).
 End Inst.
